@@ -134,6 +134,7 @@ type worldCase struct {
 	w        *world
 	mode     string
 	computes []string
+	shaped   []bool          // per compute entry: the simulation has the shape of the known finding
 	have     map[string]bool // candidate-name lists that have a compute entry
 	single   string
 	multi    string
@@ -153,6 +154,20 @@ func (wc *worldCase) emit(c *kit.Ctx) {
 	}
 	in := caseJSON{Kind: "world:" + wc.mode, World: wc.w.spec, KF: wc.kf}
 	sort.Strings(wc.keys)
+	if wc.kf != "" {
+		// the known-finding key silences the oracle for the whole case: keep the entries that do not have the
+		// finding's shape under watch in a case of their own
+		var clean []string
+		for i, e := range wc.computes {
+			if !wc.shaped[i] {
+				clean = append(clean, e)
+			}
+		}
+		if len(clean) > 0 {
+			c.AddCase(fmt.Sprintf("CaseWorld %s %s %s None None []", kit.GBool(wc.w.spec.S2S), wc.w.gCatalog(allMinKeys), kit.GList(clean)),
+				caseJSON{Kind: "world:" + wc.mode + ":entries_without_the_finding_shape", World: wc.w.spec}, "")
+		}
+	}
 	id := c.AddCase(fmt.Sprintf("CaseWorld %s %s %s %s %s %s", kit.GBool(wc.w.spec.S2S), wc.w.gCatalog(allMinKeys), kit.GList(wc.computes), wc.single, wc.multi, kit.GList(wc.filters)),
 		in, strings.Join(wc.keys, "+"))
 	for _, p := range wc.problems {
@@ -173,7 +188,8 @@ func computeCase(c *kit.Ctx, wc *worldCase, cons computer, cs []*disruption.Cand
 	res1 := w.simulate(cs...)
 	k1 := w.simKey(res1, cn)
 	simG, problems := w.gSim(res1, cn)
-	if unreservedReserved(res1) {
+	shaped := unreservedReserved(res1)
+	if shaped {
 		wc.kf = kfReserved
 		c.Count("shape:unreserved_reserved_offering")
 	}
@@ -199,6 +215,7 @@ func computeCase(c *kit.Ctx, wc *worldCase, cons computer, cs []*disruption.Cand
 	c.Count("compute/" + tag + ":" + branch)
 	wc.keys = append(wc.keys, fmt.Sprintf("%s/%d", branch, len(cs)))
 	wc.computes = append(wc.computes, fmt.Sprintf("(mkWC %s %s %s)", w.gCands(cs), simG, obsG))
+	wc.shaped = append(wc.shaped, shaped)
 	wc.have[strings.Join(names(cs), ",")] = true
 	wc.problems = append(wc.problems, problems...)
 	return true, cmd
@@ -590,6 +607,9 @@ func runUnits(c *kit.Ctx, n int) {
 
 func main() {
 	c := kit.Parse("C06", os.Args[1:])
+	// kit.NewRand(seed) starts seed steps into ONE splitmix64 sequence, so neighbouring seeds replay each other's
+	// stream shifted by one draw; scramble the seed so that different seeds give unrelated worlds
+	c.Rand = kit.NewRand((c.Seed*0x2545F4914F6CDD1D ^ 0xD1B54A32D192ED03) >> 1)
 	if f := os.Getenv("C06_PROF"); f != "" {
 		pf, _ := os.Create(f)
 		_ = pprof.StartCPUProfile(pf)
